@@ -204,6 +204,26 @@ def _c14_bases(full):
     b.con("TaskEndBefore", task=c, value=4, kind="lax")
     b.obj("ObjectiveMinimizeMakespan")
     bases.append(b.done())
+    # two tasks with work amounts on their own workers, makespan (the optimum must not depend on the order)
+    b = PB(5, tag="c14-work-amounts")
+    a = b.task("A", "V", min=0, max=5, work=4)
+    c = b.task("B", "V", min=0, max=5, work=2)
+    w1, w2 = b.worker("W1", prod=1), b.worker("W2", prod=1)
+    b.require(a, worker=w1)
+    b.require(c, worker=w2)
+    b.obj("ObjectiveMinimizeMakespan")
+    bases.append(b.done())
+    # two variable tasks on an interrupted worker
+    b = PB(6, tag="c14-interrupted")
+    a = b.task("A", "V", min=2)
+    c = b.task("B", "V", min=1)
+    w = b.worker("W")
+    b.require(a, worker=w)
+    b.require(c, worker=w)
+    b.con("ResourceInterrupted", res=res_worker(w), intervals=[[1, 2]])
+    b.con("TaskStartAt", task=a, value=0)
+    b.obj("ObjectiveMinimizeMakespan")
+    bases.append(b.done())
     if full:
         # optional tasks on a non-delay worker, unordered group
         b = PB(4, tag="c14-nondelay")
